@@ -77,3 +77,74 @@ def c02(a):
               "constructor arguments, out-of-range inputs).")
     c.assumptions = TRUSTED
     return c.finish()
+
+
+def compile_zones(pid):
+    """zic-compile the synthetic zones (slim and fat) into the work dir."""
+    import subprocess
+    zd = os.path.join(workdir(pid, fresh=False), "zones")
+    for mode in ("slim", "fat"):
+        p = subprocess.run(["zic", "-d", os.path.join(zd, mode), "-b", mode,
+                            os.path.join(os.path.dirname(os.path.dirname(os.path.abspath(__file__))), "zones", "verif.zi")],
+                           stdout=subprocess.PIPE, stderr=subprocess.STDOUT, text=True)
+        if p.returncode != 0:
+            raise ToolError("zic failed: " + p.stdout)
+    return zd
+
+
+TZ_RULE = ("Each zone (all distinct installed zoneinfo files, zic-compiled synthetic zones in slim and fat form, fixed and "
+           "grammar-generated POSIX TZ strings; thorough adds the bundled tzdb, the right/ leap-second files and 2000 "
+           "generated POSIX strings) is read by the harness's independent TZif/POSIX reader into the abstract zone of "
+           "TzLookup.tla and installed by a 'zone' event; every following event is an observation of jiff on that zone, "
+           "recomputed by Trace_Tz.tla from the definitional semantics. ")
+
+
+def tz_property(a, pid, driver, rule_text, extra=()):
+    c = Check(pid, a.tier, a.seed)
+    workdir(pid)
+    binary = build_harness()
+    zd = compile_zones(pid)
+    ex = ["--zones", zd] + list(extra)
+    if a.replay:
+        # zone-bound events are replayed by re-running the driver on the zones of the recorded cases
+        zones = sorted({(cs.get("event") or {}).get("_zone") for cs in json.load(open(a.replay)).get("cases", [])} - {None})
+        a.replay = None
+        for z in zones[:8]:
+            drive_and_validate(c, a, binary, driver, "Trace_Tz.tla", extra=ex + ["--zone", z], stem=f"{driver}-{len(c.mc_runs)}-{zones.index(z)}")
+    else:
+        drive_and_validate(c, a, binary, driver, "Trace_Tz.tla", extra=ex)
+    c.rule = TZ_RULE + rule_text
+    c.assumptions = TRUSTED + ["the harness's independent TZif / POSIX TZ readers (tzread.rs; no jiff code)",
+                               "zic (compiles the synthetic zones)"]
+    return c.finish()
+
+
+@prop("C03")
+def c03(a):
+    return tz_property(a, "C03", "c03",
+                       "C03 events: to_offset_info/to_offset/to_datetime at T-1s, T-1ns, T-0.5s, T, T+1ns, T+1s for every "
+                       "explicit transition T and for the rule transitions of selected years (thorough: every year to 9999), "
+                       "Timestamp::MIN/MAX, seeded instants. Non-trivial = class other than 'plain' (fraction before a "
+                       "transition, pre-epoch, rule years, limits).")
+
+
+@prop("C04")
+def c04(a):
+    return tz_property(a, "C04", "c04",
+                       "C04 events: to_ambiguous_timestamp classification, the four strategies, TimeZone::to_timestamp, "
+                       "DateTime::to_zoned and the displayed civil time, for nine probes around the local window of every "
+                       "transition (start-1s, start-1ns, start, start+1ns, middle, end-1ns, end, end+1ns, end+1s), the "
+                       "extreme civil datetimes and seeded civils. The expected classification is definitional: the set "
+                       "of offsets o such that the instant (civil - o) displays the civil time.")
+
+
+@prop("C14")
+def c14(a):
+    return tz_property(a, "C14", "c14",
+                       "C14 events: following()/preceding() from starts on, +-1ns, +-0.5s, +-1s around every transition "
+                       "(two items each), walks from Timestamp::MIN/MAX, across the table/rule hand-over and in the last "
+                       "years of the range; every yielded item must be strictly beyond the previous position, no real "
+                       "change may lie in between, the item must be a change or a recorded transition and carry the "
+                       "info in force from it on; a finished iterator must have no change left. Iterators are driven with "
+                       "an item bound and a no-progress guard (a non-terminating iterator is a violation, not a hang).",
+                       extra=["--right", "1"])
